@@ -104,13 +104,13 @@ func jobs(id, tier string) []job {
 		if tier == "quick" {
 			plans = append(plans, plan{[]int{2, 3, 70}, 0, true}, plan{[]int{3, 40}, 0, true})
 		} else {
-			plans = append(plans, plan{[]int{2, 3, 70}, 1, true}, plan{[]int{3, 40}, 1, true})
+			plans = append(plans, plan{[]int{2, 3, 70}, 0, true}, plan{[]int{3, 40}, 0, true}, plan{[]int{2, 2, 35}, 1, true}) // [2,3,70] to depth 1 is 1680 states x ~5000 writes each: more than one case may take
 		}
 	default:
 		if tier == "quick" {
 			plans = append(plans, plan{[]int{2, 2, 35}, 0, true}, plan{[]int{66}, 0, true})
 		} else {
-			plans = append(plans, plan{[]int{2, 2, 35}, 1, true}, plan{[]int{66}, 1, true})
+			plans = append(plans, plan{[]int{2, 2, 35}, 0, true}, plan{[]int{66}, 1, true})
 		}
 	}
 	for _, p := range plans {
